@@ -21,6 +21,7 @@ pub enum Bind {
     C, // VAR_STRING
     D, // LONGLONG unsigned (same width family as nothing else: 8 bytes)
     E, // LONG unsigned: same type code as A, other signedness
+    N, // MYSQL_TYPE_NULL for every parameter (no payload; NULL bit set or clear)
 }
 
 #[derive(Clone, Copy, Debug, PartialEq, Eq, Hash)]
@@ -74,6 +75,7 @@ fn bind_type(b: Bind) -> (u8, bool) {
         Bind::C => (0xfd, false),
         Bind::D => (0x08, true),
         Bind::E => (0x03, true),
+        Bind::N => (0x06, false),
         Bind::Reuse => unreachable!(),
     }
 }
@@ -86,6 +88,7 @@ fn value_bytes(ty: u8, i: usize, step: usize) -> Vec<u8> {
         0x03 => vec![0x11 + s, 0x62 + s, 0x23 + s, 0xc4 + s],
         0x01 => vec![0x91 + s],
         0x08 => vec![0x15 + s, 0x26 + s, 0x37 + s, 0x48 + s, 0x59 + s, 0x6a + s, 0x7b + s, 0x8c + s],
+        0x06 => vec![],
         _ => vec![2, b'A' + (s % 26), b'a' + (s % 26)],
     }
 }
@@ -647,6 +650,31 @@ pub fn scale_long_data() -> Vec<(String, Vec<Action>)> {
         h.push(ex(1, Bind::C));
         h.push(ex(1, Bind::Reuse));
         v.push((format!("{} chunks streamed round-robin to {} parameters, then execute twice", n, np), h));
+    }
+    // statement ids that agree in their low 8 / 16 / 24 bits (or differ only in the top bit): long
+    // data for one, the other executed / closed / re-prepared first
+    for (a, b) in [(1u32, 257u32), (1, 65537), (0, 65536), (5, 5 + (1 << 24)), (1, 1 + (1 << 31)), (0xffff, 0x1ffff), (u32::MAX, u32::MAX - (1 << 16))] {
+        for variant in 0..3 {
+            let mut h = vec![Action::Prepare { id: a, n: 2, ok: true }, Action::Prepare { id: b, n: 2, ok: true }];
+            h.push(Action::Long { id: a, param: 0, chunk: 1 });
+            h.push(Action::Long { id: b, param: 1, chunk: 2 });
+            match variant {
+                0 => h.push(ex(b, Bind::C)),
+                1 => {
+                    h.push(Action::Close { id: b });
+                    h.push(Action::Prepare { id: b, n: 2, ok: true });
+                    h.push(ex(b, Bind::C));
+                }
+                _ => {
+                    h.push(Action::Prepare { id: b, n: 2, ok: true });
+                    h.push(ex(b, Bind::A));
+                }
+            }
+            h.push(ex(a, Bind::C));
+            h.push(ex(a, Bind::Reuse));
+            h.push(ex(b, Bind::Reuse));
+            v.push((format!("statements {} and {}: long data for both, then {} the second first", a, b, ["execute", "close, re-prepare and execute", "re-prepare and execute"][variant]), h));
+        }
     }
     // buffers of some size abandoned by CLOSE / emptied by EXECUTE, then small data again
     for big in [3u8, 4, 5] {
